@@ -616,3 +616,40 @@ def _is_explicit_raise(n: Node) -> bool:
     """Only explicit raises (raise statements, failing asserts, calls in raising_calls) are
     followed exceptionally by the table walker: a node whose *only* successors are exceptional"""
     return all(l == "exc" for (_, l) in n.succ)
+
+
+def none_test_under(rd: "ReachingDefs", g: CFG, test_node: Node, classify, scenario) -> Optional[bool]:
+    """Truth of a canonical test `<local> is None` under a scenario, decided by the definitions of the local that are feasible in
+    that scenario (a definition guarded by a test whose atom the scenario decides the other way is infeasible):
+    True if every feasible definition binds the constant None, False if none does (calls / constructors / non-None constants)."""
+    e = test_node.ast
+    if not (isinstance(e, ast.Compare) and len(e.ops) == 1 and isinstance(e.ops[0], ast.Is) and isinstance(e.left, ast.Name)
+            and isinstance(e.comparators[0], ast.Constant) and e.comparators[0].value is None):
+        return None
+    defs = rd.defs_at(e.left.id, test_node)
+    vals = []
+    for d in defs:
+        if d.node is None or d.kind != "assign" or d.value is None:
+            return None
+        feasible = True
+        for t, pol in g.guards(d.node):
+            if t.kind != "test":
+                continue
+            c = classify(t)
+            if c is None:
+                continue
+            v = scenario.get(c[0])
+            if v is None:
+                continue
+            v = v if c[1] else (not v)
+            if v != pol:
+                feasible = False
+        if feasible:
+            vals.append(d.value)
+    if not vals:
+        return None
+    if all(isinstance(v, ast.Constant) and v.value is None for v in vals):
+        return True
+    if all(isinstance(v, (ast.Call, ast.Lambda, ast.Dict, ast.List, ast.Set, ast.Tuple, ast.JoinedStr)) or (isinstance(v, ast.Constant) and v.value is not None) for v in vals):
+        return False
+    return None
